@@ -373,3 +373,106 @@ def r_wrap_socket(d):
         if not holds:
             return {"confirmed": True, "witness": results[-1]}
     return {"confirmed": False, "attempts": results}
+
+
+# ------------------------------------------------------------------- C01: end-to-end audit replay
+def _audit_request(reqbytes, cfg, tls=False):
+    """Serve one request with the real server code and record every file-system / process audit event."""
+    import sys
+    from pygopherd import testutil, logger
+    events = []
+    active = [True]
+
+    def hook(name, args):
+        if not active[0]:
+            return
+        if name in ("open", "os.listdir", "os.scandir", "os.chdir", "os.remove", "os.rename", "os.mkdir", "subprocess.Popen", "os.exec", "os.posix_spawn", "os.system"):
+            try:
+                p = args[0]
+                if isinstance(p, bytes):
+                    p = os.fsdecode(p)
+                if isinstance(p, (list, tuple)):
+                    p = p[0]
+                if isinstance(p, str):
+                    events.append((name, p))
+            except Exception:
+                pass
+
+    if not getattr(_audit_request, "installed", False):
+        _audit_request.hooks = []
+        sys.addaudithook(lambda n, a: [h(n, a) for h in list(_audit_request.hooks)])
+        _audit_request.installed = True
+    _audit_request.hooks.append(hook)
+
+    class W(io.BytesIO):
+        def close(self):
+            pass
+
+    out = W()
+    try:
+        logger.log = lambda m: None
+        h = testutil.get_testing_handler(io.BytesIO(reqbytes), io.BytesIO(), cfg, use_tls=tls)
+        h.wfile = out
+        try:
+            h.handle()
+        except Exception as e:  # noqa
+            events.append(("exception", repr(e)))
+    finally:
+        active[0] = False
+        _audit_request.hooks.remove(hook)
+    return events, out.getvalue()
+
+
+def _escapes(root, p):
+    if not os.path.isabs(p):
+        return True  # relative to the process working directory
+    n = os.path.normpath(p)
+    root = os.path.normpath(root)
+    return not (n == root or n.startswith(root.rstrip("/") + "/"))
+
+
+@realiser("pygopherd/handlers/")
+def r_c01_audit(d):
+    """Replay for path obligations: feed every selector-like string of the counter-model through the
+    real server (Gopher and HTTP syntax) against a scratch root and look for audited file-system
+    accesses that resolve outside it."""
+    import shutil, tempfile, urllib.parse
+    import pygopherd.handlers.base as hb
+    import pygopherd.handlers.HandlerMultiplexer as hm
+    m = d["model"]
+    cands = []
+    for k, v in m.items():
+        if isinstance(v, str) and v and any(t in k for t in ("selector", "request", "name", "file", "elem")):
+            cands.append(v)
+    cands += ["/..", "/../", "/a/../..", "/%2e%2e/", "/a|/../..", "/./..", "/..\\..", "/a.zip/../../"]
+    top = tempfile.mkdtemp(prefix="pyvc-c01-", dir="/var/tmp")
+    root = os.path.join(top, "root")
+    try:
+        os.makedirs(os.path.join(root, "a"))
+        open(os.path.join(top, "secret"), "w").write("outside\n")
+        open(os.path.join(root, "a", "f.txt"), "w").write("inside\n")
+        cfg = _config({})
+        cfg.set("pygopherd", "root", root)
+        hb.rootpath = None
+        hm.rootpath = None
+        hm.handlers = None
+        seen = []
+        for s in cands[:40]:
+            sel = s if s.startswith("/") else "/" + s
+            reqs = [sel.encode("utf-8", "surrogateescape") + b"\r\n",
+                    b"GET " + urllib.parse.quote(sel, errors="surrogateescape").encode() + b" HTTP/1.0\r\n\r\n"]
+            for rq in reqs:
+                ev, out = _audit_request(rq, cfg)
+                bad = [(n, p) for (n, p) in ev if n != "exception" and (p.startswith(root) or not os.path.isabs(p)) and _escapes(root, p)
+                       and not p.endswith((".py", ".pyc", "mime.types")) and "pygopherd.conf" not in p]
+                if b"outside" in out:
+                    bad.append(("response-reveals-outside-content", repr(out[:80])))
+                if bad:
+                    return {"confirmed": True, "request": repr(rq), "escaping_accesses": bad[:5], "root": root}
+                seen.append((repr(rq)[:60], len(ev)))
+        return {"confirmed": False, "tried": seen[:12]}
+    finally:
+        shutil.rmtree(top, ignore_errors=True)
+        hb.rootpath = None
+        hm.rootpath = None
+        hm.handlers = None
